@@ -86,3 +86,34 @@ package main
 //@   call HandleFunc#* asserts[C13] cachereads: (arg1 == "/" && needsAuthForReads(c) && c.TLSCaFile == "") ==> authWrapped(ref(arg2))
 //@   call HandleFunc#* asserts[C13] cachewrites: (arg1 == "/" && (c.HtpasswdFile != "" || c.LDAP != nil)) ==> writeAuthWrapped(ref(arg2))
 //@   call Handle#* asserts[C13] metrics: (arg1 == "/metrics" && needsAuthForReads(c)) ==> handlerAuth(arg2)
+
+// gRPC wiring (C13): whenever a client CA is configured the mTLS interceptors, and whenever an
+// htpasswd file is configured the basic-auth interceptors, are in the chains handed to grpc,
+// built with the configured allow_unauthenticated_reads.
+//@ extern google.golang.org/grpc.ChainUnaryInterceptor(interceptors)
+//@   pure
+//@ extern google.golang.org/grpc.ChainStreamInterceptor(interceptors)
+//@   pure
+//@ extern google.golang.org/grpc.Creds(c)
+//@   pure
+//@ extern google.golang.org/grpc/credentials.NewTLS(c)
+//@   pure
+//@ extern google.golang.org/grpc.NewServer(opt)
+//@   pure
+//@   ensures result != nil
+//@ extern github.com/buchgr/bazel-remote/v2/server.ListenAndServeGRPC(srv, network, addr, validateACDeps, mangleACKeys, enableRemoteAssetAPI, maxCasBlobSizeBytes, c, a, e)
+//@   pure
+//@ extern github.com/buchgr/bazel-remote/v2/server.NewGrpcIdleTimer(t)
+//@   pure
+//@   ensures result != nil
+
+//@ func startGrpcServer(c *config.Config, grpcServer **grpc.Server, htpasswdSecrets auth.SecretProvider, idleTimer *idle.Timer, grpcSem *semaphore.Weighted, diskCache disk.Cache) error
+//@   serves C13 C18
+//@   requires c != nil && grpcServer != nil && grpcSem != nil && diskCache != nil
+//@   noframe
+//@   allowpanic
+//@   call ChainUnaryInterceptor#* asserts[C13] basic: htpasswdSecrets != nil ==> (exists g Int :: inSlice(arg0, boundfn("(*github.com/buchgr/bazel-remote/v2/server.GrpcBasicAuth).UnaryServerInterceptor", g)) && ptr(g, "server.GrpcBasicAuth").allowUnauthenticatedReadOnly == c.AllowUnauthenticatedReads && ptr(g, "server.GrpcBasicAuth").secrets == htpasswdSecrets)
+//@   call ChainStreamInterceptor#* asserts[C13] basic: htpasswdSecrets != nil ==> (exists g Int :: inSlice(arg0, boundfn("(*github.com/buchgr/bazel-remote/v2/server.GrpcBasicAuth).StreamServerInterceptor", g)) && ptr(g, "server.GrpcBasicAuth").allowUnauthenticatedReadOnly == c.AllowUnauthenticatedReads && ptr(g, "server.GrpcBasicAuth").secrets == htpasswdSecrets)
+//@   call ChainUnaryInterceptor#* asserts[C13] mtls: (c.TLSConfig != nil && c.TLSCaFile != "") ==> (exists x Int :: inSlice(arg0, x) && mtlsUnary(x) == (c.AllowUnauthenticatedReads ? 1 : 2))
+//@   call ChainStreamInterceptor#* asserts[C13] mtls: (c.TLSConfig != nil && c.TLSCaFile != "") ==> (exists x Int :: inSlice(arg0, x) && mtlsStream(x) == (c.AllowUnauthenticatedReads ? 1 : 2))
+//@   call ListenAndServeGRPC#* asserts[C18] limit: arg6 == c.MaxBlobSize && arg4 == c.EnableACKeyInstanceMangling && arg3 == !c.DisableGRPCACDepsCheck
